@@ -83,6 +83,10 @@ class H:
             f.write("\n".join(self.lines) + "\n")
 
 
+def rhu(x):
+    return x
+
+
 def main():
     # D1: partial reject of an approved convertible ask, then cancel: the approver gets 4 + 6, not 4 + 10
     H("d1_reject_then_cancel", "D1 partial reject then cancel of an approved convertible ask").env().inst() \
@@ -245,6 +249,20 @@ def main():
         .create_bid("buyer", [(BIG, "q")], B1, None, "1", "q", 5, 5).create_bid("buyer", [(5, "q")], B1, None, "1", "q", BIG, 5) \
         .create_bid("buyer", [(5, "q")], B1, (BIG, "q"), "1", "q", 5, 5).match("exec", A1, B1, "2", BIG) \
         .approve("appr", [], A1, "base", BIG).rev("cancel_ask", "seller", A1).write()
+    CAP = 2 ** 96
+    h = H("c13_increment_huge", "size increments at and beyond 2^96, multiples of 10^precision or just off").env()
+    for pp, inc in ((1, CAP), (1, CAP + 5), (1, 10 * (CAP // 10 + 1)), (2, 2 ** 100), (18, 2 ** 127 + 1), (0, CAP), (2, 2 ** 64 + 1),
+                    (1, 2 ** 128 - 1), (3, 10 ** 28 + 100), (3, 10 ** 28 * 3)):
+        h.inst(precision=pp, increment=inc)
+    h.write()
+    h = H("c07_amounts_at_capacity", "bids whose size / total sit at the 96-bit capacity, consistent only if conversions saturate").env()
+    h.inst(bfr="0.01", bfa="feeb")
+    for size, qs, funds, fee in ((CAP, CAP - 1, CAP - 1, None), (CAP, CAP - 1, CAP - 1 + rhu((CAP - 1) // 100), "auto"), (CAP - 1, CAP, CAP - 1, None),
+                                 (CAP - 1, CAP - 1, CAP - 1, None), (CAP, CAP, CAP, None), (10 * 2 ** 120, CAP - 1, CAP - 1, None)):
+        f = ((CAP - 1 + 50) // 100, "q") if fee == "auto" else None
+        h.create_bid("buyer", [(funds if f is None else CAP - 1 + f[0], "q")], B1, f, "1", "q", qs, size)
+    h.create_ask("seller", [(CAP, "base")], A1, "base", "q", "1", CAP).create_ask("seller", [(CAP - 1, "base")], A2, "base", "q", "1", CAP - 1) \
+        .rev("cancel_ask", "seller", A1, probe=True).write()
     # known numeric classes (recorded findings): witnesses live in corpus/known/
     H("k_inexact_match", "K_inexact: precision 18, increment 1e18, price 0.999999999999999999, size 1e18+1").env() \
         .inst(precision=18, increment=10 ** 18) \
